@@ -248,7 +248,7 @@ def rule_r3(repo):
         written |= effects(fi).written('self')
     reset = effects(pc.methods['reset']).written('self')
     parse = pc.methods['parse']
-    loop = [s for s in parse.node.body if isinstance(s, ast.While)]
+    loop = [s for s in parse.node.body if isinstance(s, (ast.While, ast.For))]
     pre = parse.node.body[:parse.node.body.index(loop[0])] if loop else []
     calls_reset = any(isinstance(n, ast.Call) and norm(n.func) == 'self.reset' for s in pre for n in ast.walk(s))
     pre_assigned = set()
